@@ -52,10 +52,12 @@ def _rt_strategy():
     mags = st.one_of(st.integers(-10 ** 6, 10 ** 6), st.floats(-1e9, 1e9, allow_nan=False), st.fractions(-100, 100, max_denominator=50).map(lambda f: ("F", f.numerator, f.denominator)),
                      st.decimals(-1000, 1000, places=3, allow_nan=False).map(lambda d: ("D", str(d))), st.lists(st.floats(-1e3, 1e3, allow_nan=False), min_size=1, max_size=4).map(lambda l: ("A", l)),
                      st.lists(st.integers(-50, 50), min_size=1, max_size=4).map(lambda l: ("I", l)))
-    unit = st.dictionaries(st.sampled_from(names + PREFIXED * 25), st.integers(-3, 3).filter(bool), min_size=0, max_size=3)
-    return st.builds(lambda kind, u, m, tr, proto, swaps: {"kind": kind, "units": u, "m": m, "transport": tr, "proto": proto, "swaps": swaps},
+    exps = st.one_of(st.integers(-3, 3).filter(bool), st.integers(-3, 3).filter(bool), st.sampled_from([("F", 1, 3), ("F", 1, 2), ("F", -2, 3), ("F", 3, 2), ("F", 1, 10), ("F", -1, 7)]))
+    unit = st.dictionaries(st.sampled_from(names + PREFIXED * 25), exps, min_size=0, max_size=3)
+    # the registry's number type for non-integers: exponents like 1/3 are floats, Fractions or Decimals accordingly, and must come back as what they were
+    return st.builds(lambda kind, u, m, tr, proto, swaps, nit: {"kind": kind, "units": u, "m": m, "transport": tr, "proto": proto, "swaps": swaps, "nit": nit},
                      st.sampled_from(["Quantity", "Quantity", "Unit", "Measurement", "UnitsContainer", "ParserHelper"]), unit, mags,
-                     st.sampled_from(["pickle", "pickle", "pickle", "copy", "deepcopy", "tuple"]), st.integers(0, 5), st.integers(1, 2))
+                     st.sampled_from(["pickle", "pickle", "pickle", "copy", "deepcopy", "tuple", "tuple"]), st.integers(0, 5), st.integers(1, 2), st.sampled_from(["float", "float", "Fraction", "Decimal"]))
 
 
 def _mag(m):
@@ -84,9 +86,9 @@ def _content(obj):
     units = None
     mag = None
     if hasattr(obj, "_units"):
-        units = tuple(sorted((k, str(v)) for k, v in obj._units.items()))
+        units = tuple(sorted((k, type(v).__name__, str(v)) for k, v in obj._units.items()))
     elif hasattr(obj, "items"):
-        units = tuple(sorted((k, str(v)) for k, v in obj.items()))
+        units = tuple(sorted((k, type(v).__name__, str(v)) for k, v in obj.items()))
     if hasattr(obj, "scale") and not hasattr(obj, "_units"):
         mag = (type(obj.scale).__name__, repr(obj.scale))
     if hasattr(obj, "_magnitude"):
@@ -104,9 +106,17 @@ def case_roundtrip(case, col=None):
     import pint
     from pint.util import ParserHelper, UnitsContainer
 
-    src = env.ureg("float")
-    units, kind, transport = case["units"], case["kind"], case["transport"]
+    nit = case.get("nit", "float")
+    kind, transport = case["kind"], case["transport"]
+    if nit != "float" and transport == "pickle":
+        nit = "float"  # unpickled objects live in the application registry, whose number type is its own; the other transports stay in the source registry
+    src = env.ureg(nit)
+    units = {k: (_mag(tuple(v)) if isinstance(v, (tuple, list)) else v) for k, v in case["units"].items()}
+    if nit == "Decimal":
+        units = {k: (Decimal(v.numerator) / Decimal(v.denominator) if isinstance(v, Fraction) and v.denominator in (2, 10) else (v if isinstance(v, int) else int(v) or 1)) for k, v in units.items()}
     m = _mag(case["m"])
+    if nit != "float" and isinstance(m, float):
+        m = env.NIT[nit](str(m))
     for n in units:
         src.get_name(n)
     uc = src.UnitsContainer(dict(units))
@@ -119,9 +129,9 @@ def case_roundtrip(case, col=None):
             raise Skip("measurement_needs_plain_magnitude")
         obj = src.Measurement(float(m), abs(float(m)) * 0.01 + 0.5, uc)
     elif kind == "UnitsContainer":
-        obj = UnitsContainer(dict(units))
+        obj = src.UnitsContainer(dict(units))
     else:
-        obj = ParserHelper(3, dict(units))
+        obj = ParserHelper(3, dict(units), non_int_type=env.NIT[nit])
     before = _content(obj)
     prefixed = any(n in PREFIXED for n in units)
     if col is not None:
@@ -180,6 +190,16 @@ def case_roundtrip(case, col=None):
 
         if s == "err" or not bool(np.all(eq)):
             raise Violation(f"roundtrip_not_equal:{transport}", f"{before}")
+        # and it takes the original's place in the registry's arithmetic
+        for tag, fn in (("dimensionality", lambda: back.dimensionality == obj.dimensionality), ("difference", lambda: bool(np.all((back - obj).magnitude == 0))),
+                        ("ratio", lambda: (back / obj).dimensionless if not hasattr(m, "shape") or bool(np.all(m != 0)) else True)):
+            if tag == "ratio" and not (hasattr(m, "shape") or m != 0):
+                continue
+            s2, r2 = attempt(fn)
+            if s2 == "err" and type(r2).__name__ in ("OffsetUnitCalculusError", "ZeroDivisionError", "DivisionByZero", "InvalidOperation", "LogarithmicUnitCalculusError", "OverflowError"):
+                continue
+            if s2 == "err" or r2 is not True:
+                raise Violation(f"roundtrip_result_unusable:{transport}:{tag}", f"{transport} of {before} (registry non_int_type={nit}): {tag} with the original -> {r2!r}")
     if transport == "deepcopy" and kind == "Quantity" and hasattr(m, "shape") and back._magnitude is obj._magnitude:
         raise Violation("deepcopy_shares_array", f"{before}")
     if _content(obj) != before:
@@ -279,6 +299,8 @@ def case_cross(case, col=None):
         b_reg = _other_registry()
     elif how == "deepcopy":
         b_reg = _copied_registry()
+    elif how == "deepcopy2":
+        a_reg, b_reg = _copied_registry(), _copied_registry(2)  # a copy and the copy of that copy
     else:
         b_reg = pint.get_application_registry().get()
         if b_reg is a_reg:
@@ -286,13 +308,19 @@ def case_cross(case, col=None):
     ua, ub = case["ua"], case["ub"]
     arr = case["array"]
     mk = lambda reg, x, u: reg.Quantity(np.array([x, x + 1.0]) if arr else x, u)  # noqa: E731
-    objs_a = {"q": mk(a_reg, 2.0, ua), "u": a_reg.Unit(ua)}
-    objs_b = {"q": mk(b_reg, 3.0, ub), "u": b_reg.Unit(ub)}
+    objs_a = {"q": mk(a_reg, 2.0, ua), "u": a_reg.Unit(ua), "attr": getattr(a_reg, ua or "dimensionless")}
+    objs_b = {"q": mk(b_reg, 3.0, ub), "u": b_reg.Unit(ub), "attr": getattr(b_reg, ub or "dimensionless")}
+    for tag_, reg_, o_ in (("first", a_reg, objs_a["attr"]), ("second", b_reg, objs_b["attr"])):
+        if o_._REGISTRY is not reg_:
+            raise Violation("registry_attribute_belongs_to_another_registry", f"{how}: the unit obtained as an attribute of the {tag_} registry belongs to another registry")
     op = case["op"]
     la, lb = case["left"], case["right"]
     x, y = objs_a[la], objs_b[lb]
+    if case.get("swap"):
+        x, y = objs_b[la], objs_a[lb]  # the younger registry's object on the left
+    la, lb = ("u" if la == "attr" else la), ("u" if lb == "attr" else lb)
     if col is not None:
-        col.case(("x", op, la, lb, ua, ub, how, arr), True, sample=case, cls=f"{op}:{la}{lb}")
+        col.case(("x", op, case["left"], case["right"], ua, ub, how, arr, bool(case.get("swap"))), True, sample=case, cls=f"{op}:{la}{lb}")
     f = divmod if op == "divmod" else getattr(operator, op)
     if op.startswith("i") and la == "u":
         raise Skip("inplace_on_unit")
@@ -321,17 +349,28 @@ def _other_registry():
     return _OTHER[0]
 
 
-def _copied_registry():
+def _copied_registry(gen=1):
     if not _COPIED:
-        _COPIED.append(copy.deepcopy(env.ureg("float")))
-    return _COPIED[0]
+        src = env.ureg("float")
+        for n in ("meter", "second", "dimensionless", "radian", "kilometer"):
+            getattr(src, n)  # names reached as attributes before the copy is taken
+        _COPIED.append(copy.deepcopy(src))
+        _COPIED.append(copy.deepcopy(_COPIED[0]))
+    return _COPIED[gen - 1]
 
 
 def run_cross(task, tier, seed, col):
     units = ["meter", "second", "", "radian", "kilometer"]
-    strat = st.builds(lambda op, l, r, ua, ub, how, arr: {"op": op, "left": l, "right": r, "ua": ua, "ub": ub, "other": how, "array": arr}, st.sampled_from(OPS2), st.sampled_from(["q", "q", "u"]),
-                      st.sampled_from(["q", "q", "u"]), st.sampled_from(units), st.sampled_from(units), st.sampled_from(["fresh", "deepcopy", "application"]), st.booleans())
-    hyp_search(col, strat, lambda c: case_cross(c, col), max_examples=500 if tier == "quick" else 8000, seed=seed * 281)
+    strat = st.builds(lambda op, l, r, ua, ub, how, arr: {"op": op, "left": l, "right": r, "ua": ua, "ub": ub, "other": how, "array": arr}, st.sampled_from(OPS2), st.sampled_from(["q", "q", "u", "attr"]),
+                      st.sampled_from(["q", "q", "u", "attr"]), st.sampled_from(units), st.sampled_from(units), st.sampled_from(["fresh", "deepcopy", "deepcopy2", "application"]), st.booleans()).flatmap(lambda c: st.booleans().map(lambda b: dict(c, swap=b)))
+    # the core of the space is small enough to enumerate: every operator x operand kinds x way the second registry came about x which side it stands on
+    for op in OPS2:
+        for l_ in ("q", "u", "attr"):
+            for r_ in ("q", "u", "attr"):
+                for how in ("fresh", "deepcopy", "deepcopy2"):
+                    for swap in (False, True):
+                        col.run_case(lambda c: case_cross(c, col), {"op": op, "left": l_, "right": r_, "ua": "meter", "ub": "second", "other": how, "array": False, "swap": swap})
+    hyp_search(col, strat, lambda c: case_cross(c, col), max_examples=300 if tier == "quick" else 8000, seed=seed * 281)
 
 
 # ------------------------------------------------------------------------------------- deep-copied registries evolve independently
@@ -415,6 +454,8 @@ def case_deepcopy(case, col=None):
         src = pint.UnitRegistry()
         for w in case["warm"]:
             _battery(src) if w else None
+            # names reached as attributes of the source before the copy is taken
+            (src.kilogram, src.meter, src.second, src.sys.cgs.centimeter, src.sys.imperial.pint) if w else None
         cp = copy.deepcopy(src)
         b_src, b_cp = _battery(src), _battery(cp)
         if b_src != b_cp:
@@ -430,7 +471,7 @@ def case_deepcopy(case, col=None):
                 diff = [(q, a, b) for q, a, b in zip(BATTERY, before, after) if a != b][:2]
                 raise Violation(f"deepcopy_not_independent:{e}:{case['side']}", f"after {e} on the {case['side']}: the other registry changed {diff}")
         # objects reached through the copy belong to the copy
-        for tag, fn in (("Quantity", lambda: cp.Quantity(1, "meter")), ("Unit", lambda: cp.Unit("second")), ("parse", lambda: cp.parse_expression("3 km")), ("attr", lambda: cp.kilogram),
+        for tag, fn in (("Quantity", lambda: cp.Quantity(1, "meter")), ("Unit", lambda: cp.Unit("second")), ("parse", lambda: cp.parse_expression("3 km")), ("attr", lambda: cp.kilogram), ("attr2", lambda: cp.meter),
                         ("sys.attr", lambda: cp.sys.cgs.centimeter), ("sys.imperial.pint", lambda: cp.sys.imperial.pint), ("group", lambda: cp.get_group("Textile")), ("system", lambda: cp.get_system("mks")),
                         ("compat", lambda: next(iter(cp.get_compatible_units("meter")))), ("formatter", lambda: cp.formatter),
                         ("Measurement", lambda: cp.Measurement(1.0, 0.1, "meter")), ("plus_minus", lambda: cp.Quantity(2.0, "meter").plus_minus(0.1)),
